@@ -8,6 +8,8 @@ import EaselModel.Threads.Lemmas
 import EaselModel.Pipeline.WakeSteps
 import EaselModel.Pipeline.ConstT
 import EaselModel.Dsqdata.FormatLemmas
+import EaselModel.Dsqdata.OpenRejects
+import EaselModel.Pipeline.Locks
 /-! # C12 — property theorems (statements + glue only; lemmas live in WorkQueue/*.lean, Dsqdata/*.lean)
 
 Work queue (`esl_workqueue.c`): every theorem is about *all* states reachable from `esl_workqueue_Create(size)` by
@@ -335,6 +337,20 @@ theorem dsq_stub_tag (tag : Nat) (rest : List UInt8) : parseStub (stubLine1 tag 
   parseStub_stubLine1 tag rest
 
 
+/-- **`open_rejects`: wrong alphabet type, foreign stub.** On the files written for any database of alphabet type `alphatype`
+    (with `dsq_open_corrupt_header` for the magic / tag of the three data files this covers every check `esl_dsqdata_Open` makes):
+    a caller whose alphabet has another type gets `eslEFORMAT` (20, "data files use a different alphabet"); with the type field
+    of the index header overwritten by `a`, a caller with the right alphabet gets the same refusal and a caller without one
+    gets `eslEFORMAT` (21, "invalid alphabet type") when `a` is 0 (`eslUNKNOWN`) or above 6; a stub file whose tag line carries
+    another tag than the index file gets `eslEFORMAT` (18, "index file has bad tag"), whatever follows the tag line. -/
+theorem open_rejects (tag alphatype : Nat) (fname fmt : List UInt8) (db : List SeqRec) (f : Files)
+    (hty : alphatype = 1 ∨ alphatype = 2 ∨ alphatype = 3) (hw : writeDb tag alphatype fname fmt db = .ok f) :
+    (∀ t, t ≠ alphatype → openDb (some t) f = .eformat 20) ∧
+    (∀ a, a % 4294967296 ≠ alphatype → openDb (some alphatype) (patchType f a) = .eformat 20) ∧
+    (∀ a, a % 4294967296 = 0 ∨ a % 4294967296 > 6 → openDb none (patchType f a) = .eformat 21) ∧
+    (∀ t rest expect, t % 4294967296 ≠ tag % 4294967296 → openDb expect (patchStub f t rest) = .eformat 18) :=
+  open_rejects_lemma tag alphatype fname fmt db f hty hw
+
 /-- non-vacuity: a DNA database of two records (a taxonomy id with a byte ≥ 0x80, an empty sequence), one record per chunk -/
 def demoDb : List SeqRec := [⟨[115, 49], [65], [100, 32, 101], 9734, [0, 1, 2, 3, 15, 0]⟩, ⟨[115, 50], [], [], 4294967295, []⟩]
 example : ∀ r ∈ demoDb, r.Wf := by
@@ -349,6 +365,11 @@ example : (match writeDb 305419896 2 [] [] demoDb with
 
 /-- a wrong alphabet is refused: caller expects `t`, the files say otherwise -/
 example : openDb (some 3) (match writeDb 7 2 [] [] [] with | .ok f => f | _ => ⟨[], [], [], []⟩) = .eformat 20 := by decide +kernel
+
+/-- `open_rejects`, concretely: the type field of a DNA database overwritten by 0 / by 7, and a stub with another tag -/
+example : openDb none (patchType (match writeDb 7 2 [] [] demoDb with | .ok f => f | _ => ⟨[], [], [], []⟩) 0) = .eformat 21 := by decide +kernel
+example : openDb none (patchType (match writeDb 7 2 [] [] demoDb with | .ok f => f | _ => ⟨[], [], [], []⟩) 7) = .eformat 21 := by decide +kernel
+example : openDb none (patchStub (match writeDb 7 2 [] [] demoDb with | .ok f => f | _ => ⟨[], [], [], []⟩) 8 [65, 10]) = .eformat 18 := by decide +kernel
 
 end bytes
 
@@ -493,6 +514,88 @@ theorem dsq_threaded_read_is_database {U C : Nat} (hU : 0 < U) (amino : Bool) (d
   · rw [hord.1]; exact Dsqdata.range_flatMap_take out _ s.nchunk (by rw [← hT]; exact hord.2)
   · rw [pipe_eof_after_all hU h he, hT, Dsqdata.range_flatMap_take out _ out.length (Nat.le_refl _), List.take_length]
     simpa using Dsqdata.tiles_flatten_db amino db maxseq maxpacket out 0 ht
+
+/-- **`read_written_database`: Write → four files → Open → threaded Read, for every database, every chunk limits, every
+    schedule.** For every database `db` of well-formed records (any number incl. 0, lengths incl. 0, every residue code the
+    packers accept (≤ 30), names / accessions / descriptions any NUL-free bytes, any 32-bit taxonomy id), every tag, every
+    `chunk_maxseq ≥ 1` and `chunk_maxpacket` that holds the longest packed sequence (the documented minimum), every number of
+    unpackers `U ≥ 1` and of consumers: `esl_dsqdata_Write` produces the four byte strings `f`; `esl_dsqdata_Open` accepts
+    them; the byte-level loader and unpacker deliver chunks `out` whose records, chunk by chunk, are `db` in order (`Tiles`:
+    chunk `j` starts at record `Σ_{k<j} N_k`, `1 ≤ N ≤ maxseq`, `pn ≤ maxpacket`), the loader then meets end of data; and in
+    EVERY state `s` the pipeline reaches under ANY interleaving, what `esl_dsqdata_Read` has handed out so far is the records of
+    the first `s.nchunk` chunks - a prefix of `db`, each record once with its own metadata - and as soon as any consumer has
+    been told `eslEOF` it is exactly `db`. -/
+theorem read_written_database {U C : Nat} (hU : 0 < U) (tag alphatype : Nat) (fname fmt : List UInt8) (db : List Dsqdata.SeqRec)
+    (maxseq : Nat) (maxpacket : Int) (hty : alphatype = 1 ∨ alphatype = 2 ∨ alphatype = 3) (hwf : ∀ r ∈ db, r.Wf)
+    (hlen : ∀ r ∈ db, r.dsq.length < 6 * Dsqdata.MAXPACKET) (hms : 1 ≤ maxseq)
+    (hfit : ∀ r ∈ db, ((Dsqdata.pk (alphatype == 3) r.dsq).length : Int) ≤ maxpacket)
+    (h1 : (db.map fun r => (Dsqdata.pk (alphatype == 3) r.dsq).length).sum < 2 ^ 63)
+    (h2 : (db.map fun r => (Dsqdata.encodeMeta (Dsqdata.metaOf r)).length).sum < 2 ^ 63)
+    (expect : Option Nat) (hexp : expect = none ∨ expect = some alphatype) :
+    ∃ f o out, Dsqdata.writeDb tag alphatype fname fmt db = .ok f ∧ Dsqdata.openDb expect f = .ok o ∧
+      Dsqdata.readDb maxseq maxpacket o = some out ∧ out.flatMap (·.2) = db ∧
+      Dsqdata.Tiles (alphatype == 3) db maxseq maxpacket 0 out ∧
+      ∀ s : Pipeline.Sys, Pipeline.Reachable U out.length C s →
+        (s.returned.flatMap fun k => (out.getD k Dsqdata.noChunk).2) = (out.take s.nchunk).flatMap (·.2) ∧
+        (∃ rest, db = ((out.take s.nchunk).flatMap (·.2)) ++ rest) ∧
+        (s.eofs ≠ [] → (s.returned.flatMap fun k => (out.getD k Dsqdata.noChunk).2) = db) := by
+  obtain ⟨f, o, out, a, b, c, d, e⟩ := dsq_bytes_round_trip tag alphatype fname fmt db maxseq maxpacket hty hwf hlen hms hfit h1 h2
+    expect hexp
+  refine ⟨f, o, out, a, b, c, d, e, fun s hs => ?_⟩
+  have t := dsq_threaded_read_is_database hU (alphatype == 3) db maxseq maxpacket out e hs
+  refine ⟨t.1, ⟨(out.drop s.nchunk).flatMap (·.2), ?_⟩, t.2⟩
+  rw [← List.flatMap_append, List.take_append_drop]; exact d.symm
+
+/-- non-vacuity of `read_written_database`: the two-record DNA database `demoDb` (a taxonomy id with high bytes, an empty
+    sequence), one record per chunk, satisfies every hypothesis -/
+example : (∀ r ∈ demoDb, r.dsq.length < 6 * Dsqdata.MAXPACKET) ∧ (∀ r ∈ demoDb, ((Dsqdata.pk ((2 : Nat) == 3) r.dsq).length : Int) ≤ 4) ∧
+    (demoDb.map fun r => (Dsqdata.pk ((2 : Nat) == 3) r.dsq).length).sum < 2 ^ 63 ∧
+    (demoDb.map fun r => (Dsqdata.encodeMeta (Dsqdata.metaOf r)).length).sum < 2 ^ 63 := by
+  refine ⟨?_, ?_, by decide +kernel, by decide +kernel⟩
+  · intro r hr
+    simp only [demoDb, List.mem_cons, List.not_mem_nil, or_false] at hr
+    rcases hr with rfl | rfl <;> decide
+  · intro r hr
+    simp only [demoDb, List.mem_cons, List.not_mem_nil, or_false] at hr
+    rcases hr with rfl | rfl <;> decide +kernel
+
+/-! ### ownership and lock discipline (what stands in for data-race freedom in the interleaving model) -/
+
+/-- **`chunk_ownership_exclusive`.** In every state the pipeline reaches, under any interleaving: every chunk buffer `b` has
+    at most one owner among {the loader, `inbox[u]`, unpacker `u`, `outbox[u]`, consumer `c`, the recycling stack}
+    (`Sys.owners` lists them by name); a buffer that has not been created yet has none; and the buffers that have an owner are
+    exactly the created-and-not-yet-destroyed ones (`live = nalloc`, `nextBuf = nalloc + freed`). So a chunk's contents - touched
+    outside any mutex only by the thread that holds it - never have two parties. -/
+theorem chunk_ownership_exclusive {U T C : Nat} (hU : 0 < U) {s : Pipeline.Sys} (h : Pipeline.Reachable U T C s) (b : Nat) :
+    (s.owners b).length ≤ 1 ∧ (s.nextBuf ≤ b → s.owners b = []) ∧ s.live = s.nalloc ∧ s.nextBuf = s.nalloc + s.freed := by
+  have o := Pipeline.reachable_own hU h
+  have i := Pipeline.reachable_inv hU h
+  have i2 := (Pipeline.reachable_inv2 hU h).2
+  have hl := Pipeline.owners_length s b i.len
+  refine ⟨by rw [hl]; exact o.excl b, fun hb => ?_, i2.count, i2.created⟩
+  have := o.fresh b hb
+  rw [← hl] at this
+  exact List.eq_nil_of_length_eq_zero this
+
+/-- **`pipe_lock_discipline`.** For every step `l` the pipeline takes from a reachable state `s`: a shared field of
+    `ESL_DSQDATA` (`inbox[u]`/`inbox_eod[u]`, `outbox[u]`/`outbox_eod[u]`, `nchunk`, `recycling`) changes only if the critical
+    section the step models holds the mutex guarding it (`Pipeline.held s l` - the harness checks on every observed region that
+    the executing thread really holds it); thread-private variables (the loader's program counter / chunk in hand / counters,
+    unpacker `u`'s program counter / chunk in hand) change only in steps of their own thread. -/
+theorem pipe_lock_discipline {U T C : Nat} (hU : 0 < U) {s s' : Pipeline.Sys} (h : Pipeline.Reachable U T C s) (l : Pipeline.Label)
+    (hs : Pipeline.step s l = some s') :
+    Pipeline.Frame s s' (Pipeline.held s l) ∧
+    (l ≠ .loader → s'.lpc = s.lpc ∧ s'.nchunkL = s.nchunkL ∧ s'.nalloc = s.nalloc) ∧
+    (∀ u, l ≠ .unpacker u → (s'.lane u).upc = (s.lane u).upc) :=
+  let i := Pipeline.reachable_inv hU h
+  ⟨Pipeline.step_frame s s' l i hs, Pipeline.step_private s s' l i hs⟩
+
+/-- non-vacuity: after the run of the example above, buffer 0 is on the recycling stack, buffer 1 with consumer 8, buffer 2
+    in the loader's hands, buffer 3 does not exist yet -/
+example : ∃ s, Pipeline.run (Pipeline.Sys.create 2 3 2)
+    [.loader, .loader, .loader, .unpacker 0, .loader, .loader, .loader, .unpacker 1, .unpacker 0, .read 7, .unpacker 1, .read 8, .recycle 7 0 0, .loader, .loader]
+      = some s ∧ s.owners 0 = [.recycling] ∧ s.owners 1 = [.consumer 8] ∧ s.owners 2 = [.loader] ∧ s.owners 3 = [] := by
+  refine ⟨_, rfl, ?_, ?_, ?_, ?_⟩ <;> decide
 end pipeline
 
 end EaselModel.Props.C12
